@@ -127,7 +127,25 @@ def main():
                     c = int(np.argmax(res / np.maximum(r0n, 1e-300)))
                     found(clause="zero residual once m reaches n", input=inp, observed=f"column {c}: {res[c]:.4e}", expected="0 (to rounding)")
                 prev = res
-    print(json.dumps(dict(replayed=True, failing_input_found=False, cases=len(cases))))
+    # homogeneity in the right-hand side: the optimal iterate of (A, s b) is s times that of (A, b); right-hand sides far below the tolerances in absolute terms
+    nh = 0
+    for cplx in (False, True):
+        n = 8
+        M = (rnd(n, n, cplx=cplx) + 2.5 * np.eye(n)).astype(np.complex128 if cplx else np.float64)
+        B0 = rnd(n, 2, cplx=cplx).astype(M.dtype)
+        for tol in (1e-6, 1e-12):
+            for s in (1.0, 1e-8, 1e-14):
+                for m in (3, n):
+                    inp = f"gmres({'complex' if cplx else 'real'} 8x8, {s:g} * b (2 columns), max_iters={m}, tol={tol:g}), seed 13"
+                    X, _ = G.gmres(Dense(M), s * B0, max_iters=m, tol=tol)
+                    Xr, _ = G.gmres(Dense(M), B0, max_iters=m, tol=tol)
+                    nh += 1
+                    relres = np.linalg.norm(s * B0 - M @ np.asarray(X), axis=0) / np.linalg.norm(s * B0, axis=0)
+                    relref = np.linalg.norm(B0 - M @ np.asarray(Xr), axis=0) / np.linalg.norm(B0, axis=0)
+                    if np.any(relres > relref * (1 + 1e-3) + 1e-7):
+                        found(clause="the iterate attains the smallest residual over x0 + K_m (homogeneity in the right-hand side)", input=inp,
+                              observed=f"relative residuals {np.round(relres, 10).tolist()}", expected=f"{np.round(relref, 10).tolist()} (the same problem with s = 1)")
+    print(json.dumps(dict(replayed=True, failing_input_found=False, cases=len(cases) + nh)))
 
 
 if __name__ == "__main__":
